@@ -272,3 +272,47 @@ func execIndep() string {
 	return fmt.Sprintf("A:%s:%s B:%s:%s X:%s:%s Y:%s:%s", ra, first(pool.log["A"], 2), rb1, first(pool.log["B"], 1),
 		rx, first(pool.log["X"], 2), ry, first(pool.log["Y"], 2))
 }
+
+// ---------------------------------------------------------------------------------------------
+// once: the REAL sync.OnceFunc under n concurrent callers (what newResolveNow publishes): how often the function
+// ran, and how many callers returned BEFORE it had completed. The driver compares with runs of the Once LTS.
+
+func execOnce(f []string) string {
+	if len(f) != 2 {
+		return "BADLINE"
+	}
+	n, err := strconv.Atoi(f[1])
+	if err != nil || n < 0 || n > 64 {
+		return "BADLINE"
+	}
+	var mu sync.Mutex
+	execs, early := 0, 0
+	completed := false
+	fn := sync.OnceFunc(func() {
+		mu.Lock()
+		execs++
+		mu.Unlock()
+		time.Sleep(2 * time.Millisecond) // a slow f: losers get every chance to overtake it
+		mu.Lock()
+		completed = true
+		mu.Unlock()
+	})
+	start := make(chan struct{})
+	var wg sync.WaitGroup
+	for i := 0; i < n; i++ {
+		wg.Add(1)
+		go func() {
+			defer wg.Done()
+			<-start
+			fn()
+			mu.Lock()
+			if !completed {
+				early++
+			}
+			mu.Unlock()
+		}()
+	}
+	close(start)
+	wg.Wait()
+	return fmt.Sprintf("execs=%d early=%d", execs, early)
+}
